@@ -1,2 +1,3 @@
+pub mod qmatch;
 pub mod text;
 pub mod xtree;
